@@ -5,6 +5,7 @@ as Gallina definitions (Gen/DepK.v); coq/Bridge/Dep.v proves them equal to the c
   DEP_REQ_RES.decode         the four PFB fields  cls.PFB(pfb >> 4, bool(pfb & 8), bool(pfb & 4), pfb & 3)
   DEP_REQ_RES                the PDU type constants (LastInformation ... TimeoutExtension)
   Initiator/Target.exchange  every `self.pni = <expr>` packet number step (two sites each)
+  Initiator/Target.activate  the packet number reset (self.pni = 0 / self.pni = None) in the success branch
   Initiator/Target.exchange  payload slicing by self.miu: chunk, remainder (del), "more" flag
   Initiator.exchange.RTOX    the RTOX value range test;  Target.send_timeout_extension: the RTOX mask
   Initiator/Target.encode_frame   length octet (struct.pack("B", len(frame) + 1)) and 106A start byte
@@ -290,6 +291,26 @@ def generate(repo):
         steps.sort(key=lambda x: x.lineno)
         for i, x in enumerate(steps):
             out.append(defn('gen_%s_pni_next_%d' % (pre, i + 1), [('pni', 'Z')], 'Z', Tr({'pni': 'Z'}).expr(x)))
+
+    # ---- packet number reset in activate (so that activating an object again starts like a fresh one)
+    ia = find(tree, 'Initiator.activate')
+    v = one(assigns(ia, 'self.pni'), 'Initiator.activate self.pni =')
+    if not (isinstance(v, ast.Constant) and isinstance(v.value, int) and not isinstance(v.value, bool)):
+        raise Bad('Initiator.activate: self.pni is not reset to a constant')
+    no_augassign(ia, 'self.pni')
+    out.append('Definition gen_i_activate_pni : Z := %d.' % v.value)
+    ta = find(tree, 'Target.activate')
+    v = one(assigns(ta, 'self.pni'), 'Target.activate self.pni =')
+    if not (isinstance(v, ast.Constant) and v.value is None):
+        raise Bad('Target.activate: self.pni is not reset to None')
+    # both resets must sit in the branch that returns the general bytes (not in an earlier, conditional place)
+    for fn, ret in ((ia, 'return self.gbt'), (ta, 'return self.gbi')):
+        blk = [n for n in ast.walk(fn) if isinstance(n, ast.If) and
+               any(isinstance(x, ast.Assign) and ast.unparse(x.targets[0]) == 'self.pni' for x in n.body) and
+               any(isinstance(x, ast.Return) and ast.unparse(x) == ret for x in n.body)]
+        if len(blk) != 1:
+            raise Bad('%s: packet number reset is not in the success branch' % fn.name)
+    out.append('Definition gen_t_activate_pni : option Z := None.\n')
 
     # ---- payload slicing
     ix = find(tree, 'Initiator.exchange')
